@@ -8,6 +8,38 @@ TRANSLATOR = "verif-extract (go/ast + go/types translator /repo -> Cql/Gen/*.lea
 HARNESS = "verif-harness correspondence run (differential, sampled; never a substitute for a theorem)"
 
 PROPS = {
+    "C02": {
+        "lean_targets": ["Cql.Props.C02"],
+        "trusted_base": COMMON_TRUST + [TRANSLATOR + " (constants: every flag mask, opcode, version, query/prepare/batch/rows flag of Cql/Spec is proved equal "
+            "to its regenerated Gen constant)", HARNESS,
+            "Cql/Impl/*.lean: hand-written code-shaped model of frame/*.go, message/*.go, primitive/*.go, datatype/*.go (tied byte-for-byte by the "
+            "C01/C03/C05 correspondence runs)",
+            "Cql/Spec/{Notations,Frame,Requests,Responses,Message}.lean: hand transcription of specs/native_protocol_v2..v5.spec and "
+            "dse_protocol_v1..v2.spec, each clause quoting its sentence; written independently of Cql/Impl"],
+        "assumptions": [
+            "version-validity for C02 includes FieldsDefined: a message carries only elements its version's document defines (the Go encoder "
+            "writes e.g. a v4 QUERY keyspace if asked to; such frames are outside the property's premise)",
+            "compressed bodies: the compressor's output on the specification's uncompressed body (the block formats are third-party, see C08)",
+            "where the documents leave a choice (custom payload position in v4/DSE, DSE v2 header text) the reading recorded in Cql/Spec/Frame.lean is used",
+        ],
+    },
+    "C07": {
+        "gens": ["crcfacts"],
+        "lean_targets": ["Cql.Props.C07"],
+        "native_theorems": {"crc24_distance_3": 1, "crc24_distance_5": 1, "header_bitflips_rejected": 1,
+                            "segment_header_bitflips_rejected": 1, "encoded_segment_header_bitflips_rejected": 1},
+        "trusted_base": COMMON_TRUST + [TRANSLATOR + " (CRC polynomials, shifts, masks, seed bytes: Gen/CrcFacts.lean)", HARNESS,
+            "native_decide in two named enumeration theorems of Cql/Lemmas/Crc24Enum.lean (crc24_weight_core_3 over 536,154 and crc24_weight_core_5 "
+            "over 23,242,038 error patterns): adds the axioms crc24_weight_core_{3,5}._native.native_decide.ax_1_1, i.e. trusts the Lean "
+            "compiler/interpreter for these two evaluations; only the five CRC-24 distance/header theorems depend on them; every CRC-32 theorem and "
+            "the period check are kernel-only",
+            "Cql/Crc.lean, Cql/Segment.lean: hand-written BitVec model of crc/*.go and segment/decode.go (compared with the real code on every run)"],
+        "assumptions": [
+            "corruption = xor of the transmitted bytes with an error mask of the same length (insertions/deletions of bytes are not bit flips)",
+            "two-bit payload errors are covered for payloads up to the format's 131071-byte limit (period check up to 1,048,832 bits)",
+            "the payload theorems take the intact header as decoded (the header round trip is C06)",
+        ],
+    },
     "C18": {
         "gens": ["effects"],
         "race": True,
@@ -183,6 +215,31 @@ PROPS = {
 }
 
 MANIFEST_TEXT = {
+    "C02": {
+        "text": "Lean refinement theorems between two independently written models: for every supported version, every message kind (all ERROR, "
+                "RESULT, EVENT variants, every optional-field subset, nested column types) and every version-valid frame, the code-shaped "
+                "encoder (tied to the Go code by the correspondence runs) emits exactly the bytes of the specification-shaped layout written "
+                "from the six spec documents — header with direction bit and stream-id width, flag widths, field order and presence, every "
+                "notation; the decoder reads specification-formatted bytes back to the frame; compressed frames carry the compressor's output "
+                "on the specification's body; every one of the 2^16 (version byte, opcode) combinations that breaks the documents is refused "
+                "(structural proof + kernel-decided byte tables). The harness compares the real encoder's bytes with the executable Spec "
+                "functions, runs all 2^16 headers through the real decoder, and decodes hand-written specification-formatted frames.",
+        "design_ref": "DESIGN.md §5 C02",
+        "note": "Trusted: Lean kernel; the hand transcription of the specs; the code-shaped model (correspondence). Known findings: spec-defined "
+                "error codes without a message type.",
+        "technique": "Lean 4 refinement theorems (code-shaped encoder = spec-shaped layout) + exhaustive header table + differential run against the executable spec",
+    },
+    "C07": {
+        "text": "Lean theorems over a BitVec model of the CRC-24/CRC-32 code and the segment decoder: CRC-24 is xor-linear and no nonzero error "
+                "of total weight <= 7 over header data + CRC bits is a codeword (complete enumeration of the 3- and 5-byte cases, lifted by "
+                "linearity to every header value), so every 1..7-bit corruption of an encoded header is rejected with a CRC error, for every "
+                "header; CRC-32 is linear and its bit step injective, so every burst of <= 32 bits and every single bit anywhere in payload + "
+                "trailer is rejected for payloads of ANY length, and every two-bit error for payloads up to the format limit (period > "
+                "1,048,832, kernel-checked in chunks). The harness enumerates flips on the real decoder.",
+        "design_ref": "DESIGN.md §5 C07",
+        "note": "Trusted: Lean kernel + (for the five CRC-24 theorems only) native evaluation of two enumerations; the BitVec model of the CRC code.",
+        "technique": "Lean 4 theorems (linearity + exhaustive enumeration of error patterns; native_decide confined to two named enumerations)",
+    },
     "C18": {
         "text": "Generic Lean theorem: threads that only read what they share end, under EVERY interleaving, with exactly the results of their "
                 "own calls made one after another (induction over schedules). Per run, on data regenerated from the SSA form of the Go source, the "
